@@ -42,7 +42,7 @@ def steps(seed):
 def run(tier, seed):
     def post(res):
         n = res.stats.get("wr_states", 0)
-        mx = max([int(k.rsplit("_", 1)[1]) for k in res.stats if k.startswith("wr_max_draws_seen_ge_")] or [0])
+        mx = max([int(k.rsplit("_", 1)[1]) for k in res.stats if k.startswith("wr_shards_whose_max_draws_was_")] or [0])
         res.extra["enumerated_subspace"] = "generator states enumerated (x12 bounds): %d (2^31 = 2147483648; asan+plain blocks may overlap)" % n
         res.extra["max_draws_observed"] = mx
     return generic.run_spec("C46", tier, seed, steps(seed), RULE,
